@@ -244,8 +244,8 @@ def rule_tagshadow(chk, prog, tier):
                 t.obj.f[('incomplete',)] = 0 if complete else 1
                 return t
             t_outer = mkS(True); t_inner = mkS(True)
-            if where in ('outer', 'both'): tags[(id(outer), 'S')] = t_outer
-            if where in ('inner', 'both'): tags[(id(inner), 'S')] = t_inner
+            if where in ('outer', 'both'): tags[(outer.id, 'S')] = t_outer
+            if where in ('inner', 'both'): tags[(inner.id, 'S')] = t_inner
             toks = [(kw, None), ('TIDENT', 'S'), (follow, 'x' if follow == 'TIDENT' else None), ('TSEMICOLON', None)]
             pos = {'i': 0}
             tokobj = it.gobj('tok')
@@ -261,12 +261,12 @@ def rule_tagshadow(chk, prog, tier):
             def gettag(it2, a, e):
                 s, name, rec = a
                 while s is not None:
-                    t = tags.get((id(s.obj), 'S'))
+                    t = tags.get((s.obj.id, 'S'))
                     if t is not None or not rec: return t
                     s = it2.load(s.obj, ('parent',))
                 return None
             def puttag(it2, a, e):
-                tags[(id(a[0].obj), 'S')] = a[2]; it2.event('puttag', id(a[0].obj) == id(inner)); return None
+                tags[(a[0].obj.id, 'S')] = a[2]; it2.event('puttag', a[0].obj is inner); return None
             def structdecl(it2, a, e):
                 b = a[1]
                 t = it2.load(b.obj, b.path + ('type',))
@@ -281,7 +281,7 @@ def rule_tagshadow(chk, prog, tier):
                               'fatal': lambda i2, a, e: (_ for _ in ()).throw(Terminal('fatal', a))})
             load()
             t = it.call(fn, [Ptr(inner, ())])
-            return ('outer' if t == t_outer else 'inner' if t == t_inner else 'new'), tags.get((id(inner), 'S')) == t, it.load(t.obj, ('incomplete',))
+            return ('outer' if t == t_outer else 'inner' if t == t_inner else 'new'), tags.get((inner.id, 'S')) == t, it.load(t.obj, ('incomplete',))
         runs = explore(prog, runner, {}, max_runs=2)
         run = runs[0]
         key = 'tag:%s S %s,visible=%s' % (kw[1:].lower(), {'TSEMICOLON': ';', 'TLBRACE': '{', 'TMUL': '*', 'TIDENT': 'x'}[follow], where)
